@@ -212,7 +212,7 @@ func checkC18(c c18Case, rec *Rec) *Violation {
 	return nil
 }
 
-var c18NamePool = []string{"example.org", "a.com", "sub.a-b.co.uk", "xn--p1ai.xn--p1ai", "x1.y2.zz", "localhost.localdomain", "example.or", "xample.org", "b.example.org"}
+var c18NamePool = []string{"example.org", "a.com", "sub.a-b.co.uk", "xn--p1ai.xn--p1ai", "x1.y2.zz", "localhost.localdomain", "example.or", "xample.org", "b.example.org", "Printer.LAN", "Ads.Example.COM"}
 var c18IPs = []string{"0.0.0.0", "127.0.0.1", "::", "::1", "::ffff:1.2.3.4", "fe80::1", "2001:db8::1", "10.1.2.3", "255.255.255.255", "0:0:0:0:0:0:0:1"}
 
 func c18WS(t *rapid.T, label string) string {
